@@ -1,5 +1,6 @@
 import SasLexer.Proofs.Model.Disc
 import SasLexer.Lex.Common
+import SasLexer.Proofs.Model.DiscLemmas
 /-!
 # The scanning discipline holds of the shared scanners (`Lex/Common.lean`)
 One lemma per scanner: `awp (scanner …) Q r false` for every continuation `Q` that accepts any
@@ -15,6 +16,9 @@ attribute [awp_simp] Prog.perform P.rest P.peek P.peekNext P.advance P.advance_ 
   P.peekIs P.dbg fuelOfRest
 
 theorem isWhitespace_nl : isWhitespace '\n' = true := by decide
+
+/-- close the leaf facts left by `awp_auto` -/
+macro "awp_done" : tactic => `(tactic| all_goals (first | (simp_all; done) | grind))
 
 /-- the program respects the discipline from every text, whatever it returns and leaves -/
 def Safe {α} (p : Prog α) : Prop := ∀ r, awp p (fun _ _ lag => lag = false) r false
@@ -70,5 +74,124 @@ theorem resolveStringLiteralEnding_safe : Safe resolveStringLiteralEnding := by
   intro r
   unfold resolveStringLiteralEnding
   rcases r with _ | ⟨c, _ | ⟨d, u⟩⟩ <;> awp_eval <;> grind
+
+theorem lexSingleQuotedLoop_safe : ∀ (f : Nat), Safe (lexSingleQuotedLoop f)
+  | 0, r => by simp [lexSingleQuotedLoop, awp_simp]
+  | f + 1, r => by
+    unfold lexSingleQuotedLoop
+    have ih := lexSingleQuotedLoop_safe f
+    unfold Safe at ih
+    rcases r with _ | ⟨c, _ | ⟨d, u⟩⟩ <;> awp_eval <;> grind
+
+theorem resolveStringLiteralEnding_awp {Q : TokenType → List Char → Bool → Prop} {r : List Char}
+    (hQ : ∀ ty r', ty ≠ .EOF → Q ty r' false) : awp resolveStringLiteralEnding Q r false := by
+  unfold resolveStringLiteralEnding
+  rcases r with _ | ⟨c, _ | ⟨d, u⟩⟩ <;> awp_eval <;> grind
+
+theorem lexSingleQuotedStr_awp (cfg : Cfg) (t : List Char) {Q : Unit → List Char → Bool → Prop}
+    (hQ : ∀ r', Q () r' false) :
+    awp (lexSingleQuotedStr cfg) Q ('\'' :: t) false := by
+  unfold lexSingleQuotedStr
+  awp_auto [(lexSingleQuotedLoop_safe _).awp, resolveStringLiteralEnding_awp]
+  awp_done
+
+
+theorem take_sub {l : List Char} {n m : Nat} (h : n ≤ m) {c : Char} (hc : c ∈ l.take n) : c ∈ l.take m := by
+  have : l.take n = (l.take m).take n := by rw [List.take_take]; congr 1; omega
+  rw [this] at hc
+  exact List.mem_of_mem_take hc
+
+theorem emitResolveOps_awp : ∀ (ks : List Nat) (r : List Char) {Q : Unit → List Char → Bool → Prop},
+    (∀ r', Q () r' false) → (∀ c ∈ r.take (sumPow ks), c ≠ '\n') → awp (emitResolveOps ks) Q r false
+  | [], r, Q, hQ, _ => by simp [emitResolveOps, awp_simp, hQ]
+  | k :: ks, r, Q, hQ, h => by
+    unfold emitResolveOps
+    simp only [awp_simp]
+    have hs : sumPow (k :: ks) = 2 ^ k + sumPow ks := by simp [sumPow]
+    refine ⟨⟨trivial, fun c hc => h c (take_sub (by omega) hc)⟩, ⟨by simp, ?_⟩⟩
+    refine ⟨trivial, fun _ => emitResolveOps_awp ks _ hQ ?_⟩
+    intro c hc
+    apply h c
+    rw [hs, List.take_add]
+    exact List.mem_append_right _ hc
+
+theorem amp_ops_ok {r : List Char} {b : Bool} {n : Nat} (h : isMacroAmp r 0 = (b, n)) :
+    ∀ c ∈ r.take (sumPow (resolveOps n)), c ≠ '\n' := by
+  intro c hc
+  have := (isMacroAmp_take r 0 h).2 c (take_sub (by have := sumPow_resolveOps_le n; omega) hc)
+  subst this; decide
+
+set_option maxRecDepth 4000 in
+theorem lexMacroVarExprLoop_safe : ∀ (f : Nat) (st : List Nat), Safe (lexMacroVarExprLoop f st)
+  | _, [], r => by simp [lexMacroVarExprLoop, awp_simp]
+  | 0, _ :: _, r => by simp [lexMacroVarExprLoop, awp_simp]
+  | f + 1, s :: st, r => by
+    unfold lexMacroVarExprLoop
+    have ih := fun st => lexMacroVarExprLoop_safe f st
+    awp_auto [emitResolveOps_awp, (ih _).awp]
+    all_goals (first | exact isXidContinue_nl | exact amp_ops_ok rfl _ ‹_› ‹_› | (simp_all; done) | grind)
+
+theorem lexMacroVarExpr_safe (cfg : Cfg) : Safe (lexMacroVarExpr cfg) := by
+  intro r
+  unfold lexMacroVarExpr
+  awp_auto [emitResolveOps_awp, (lexMacroVarExprLoop_safe _ _).awp]
+  all_goals (first | exact amp_ops_ok rfl _ ‹_› ‹_› | (simp_all; done) | grind)
+
+theorem lexMacroCommentLoop_safe : ∀ (f : Nat) (q : Quote), Safe (lexMacroCommentLoop f q)
+  | 0, q, r => by simp [lexMacroCommentLoop, awp_simp]
+  | f + 1, q, r => by
+    unfold lexMacroCommentLoop
+    have ih := fun q => lexMacroCommentLoop_safe f q
+    rcases r with _ | ⟨c, t⟩ <;> awp_auto [(ih _).awp] <;> awp_done
+
+theorem lexMacroComment_awp (cfg : Cfg) (t : List Char) {Q : Unit → List Char → Bool → Prop}
+    (hQ : ∀ r', Q () r' false) : awp (lexMacroComment cfg) Q ('%' :: '*' :: t) false := by
+  unfold lexMacroComment
+  awp_auto [(lexMacroCommentLoop_safe _ _).awp]
+  awp_done
+
+theorem predictedOpenLoop_safe : ∀ (f : Nat), Safe (predictedOpenLoop f)
+  | 0, r => by simp [predictedOpenLoop, awp_simp]
+  | f + 1, r => by
+    unfold predictedOpenLoop
+    have ih := predictedOpenLoop_safe f
+    rcases r with _ | ⟨c, t⟩ <;> awp_auto [ih.awp] <;> awp_done
+
+theorem predictedMacroLoop_safe : ∀ (f : Nat), Safe (predictedMacroLoop f)
+  | 0, r => by simp [predictedMacroLoop, awp_simp]
+  | f + 1, r => by
+    unfold predictedMacroLoop
+    have ih := predictedMacroLoop_safe f
+    rcases r with _ | ⟨c, t⟩ <;> awp_auto [ih.awp] <;> awp_done
+
+theorem lexPredictedComment_safe : Safe lexPredictedComment := by
+  intro r
+  unfold lexPredictedComment
+  awp_auto [(predictedOpenLoop_safe _).awp, (predictedMacroLoop_safe _).awp]
+  awp_done
+
+theorem lexCharFormat_safe : Safe lexCharFormat := by
+  intro r
+  unfold lexCharFormat
+  awp_auto []
+  all_goals (first | exact (charFormatLen_take ‹_›).no_nl CfCh_nl _ ‹_› ‹_› | (simp_all; done) | grind)
+
+theorem expectedCharAndError_ne_eof {ty : TokenType} {x : Char × ErrorKind} (h : expectedCharAndError ty = some x) :
+    ty ≠ .EOF := by
+  intro he; subst he; simp [expectedCharAndError] at h
+
+theorem lexExpectedToken_safe (cfg : Cfg) (nc : Option Char) (ty : TokenType) (ch : Channel)
+    (hnc : ∀ c, nc = some c → c ≠ '\n') {r : List Char} (hr : nc = r.head?) {Q : Unit → List Char → Bool → Prop}
+    (hQ : ∀ r', Q () r' false) : awp (lexExpectedToken cfg nc ty ch) Q r false := by
+  unfold lexExpectedToken
+  awp_auto []
+  all_goals (first | exact hQ _ | exact absurd ‹ty = _› (expectedCharAndError_ne_eof ‹_›) | (simp_all; done) | grind)
+
+theorem lexNumericLiteral_safe (cfg : Cfg) (sd : Bool) : Safe (lexNumericLiteral cfg sd) := by
+  intro r
+  unfold lexNumericLiteral
+  awp_auto []
+  all_goals (first | exact (numericChoice_ok ‹_›).1.no_nl NumCh_nl _ ‹_› ‹_› | exact absurd ‹_› (numericChoice_ok ‹_›).2 | (simp_all [isXChar]; done) | grind)
+
 
 end SasLexer
